@@ -341,6 +341,8 @@ func (n *BaseNode) InsertAfter(self, v1, insertee Node) {
 		n.AppendChild(self, insertee)
 		return
 	}
+	// detach first: insertee may already be the next sibling of v1
+	ensureIsolated(insertee)
 	n.InsertBefore(self, v1.NextSibling(), insertee)
 }
 
